@@ -19,7 +19,9 @@ RULE = (
     "1<=n,chunk<=N, 0<=overlap<chunk; (ex) all (n, n_excerpts, excerpt_size) with n<=40, "
     "n_excerpts<=8, 1<=size<=12; (gcb) all file-size lists (<=3 files of <=8 samples; thorough "
     "<=4 files of <=9) x chunk lengths <=12, each checked on _get_chunk_bounds AND on a real "
-    "FlatEphysReader over files of those sizes (chunk length set through sample_rate=c/600); "
+    "FlatEphysReader over files of those sizes (chunk length set through sample_rate=c/600; file names in ascending, descending or "
+    "run_8/run_9/run_10 order); (gcb-large) chunk lengths of hundreds of samples with file sizes "
+    "just above a multiple of the chunk length; "
     "(cbin) mtscomp-compressed readers over n x chunk length x n_threads{1,2,3,5} x cache on/off. "
     "Oracle: row-set semantics on arange(n) (kept rows concatenate to arange(n), kept rows are a "
     "subset of the chunk's rows, chunk rows <= chunk size), monotone/boundary/gap predicates for "
@@ -55,6 +57,16 @@ def _gcb_cases(K, S, C):
                 yield {'k': 'gcb', 'sizes': list(sizes), 'cs': cs}
 
 
+def _gcb_large_cases(th):
+    # realistic chunk lengths (hundreds of samples) with files ending just after a chunk boundary
+    for cs in ([200, 600] if not th else [100, 199, 200, 201, 300, 600, 1000]):
+        for q in (1, 2):
+            for r in range(0, 8):
+                yield {'k': 'gcb', 'sizes': [q * cs + r], 'cs': cs, 'large': True}
+                yield {'k': 'gcb', 'sizes': [cs + 3, q * cs + r], 'cs': cs, 'large': True}
+                yield {'k': 'gcb', 'sizes': [q * cs + r, 5, cs], 'cs': cs, 'large': True}
+
+
 def _cbin_cases(N, thorough):
     ns = range(1, N + 1)
     for n in ns:
@@ -78,6 +90,9 @@ def drivers(tier):
         dict(kind='enum', name='gcb', exhaustive=True,
              bound='<=4 files of <=9, chunk<=12' if th else '<=3 files of <=8, chunk<=12',
              cases=lambda: _gcb_cases(4 if th else 3, 9 if th else 8, 12)),
+        dict(kind='enum', name='gcb-large', exhaustive=False,
+             bound='chunk lengths 200/600 (thorough: 100-1000), file sizes q*chunk + 0..7',
+             cases=lambda: _gcb_large_cases(th)),
         dict(kind='enum', name='cbin', exhaustive=True, bound='n<=%d' % (40 if th else 16),
              cases=lambda: _cbin_cases(40 if th else 16, th)),
     ]
@@ -178,7 +193,7 @@ def _check_gcb(case):
     nch = 2
     arr = rec.values(sum(sizes), nch, np.int16)
     with env.scratch() as d:
-        paths = rec.write_flat(d, arr, sizes)
+        paths = rec.write_flat(d, arr, sizes, order=['asc', 'desc', 'num'][(sum(sizes) + cs) % 3])
         r = must_return('get_ephys_reader', get_ephys_reader, paths, n_channels=nch,
                         dtype=np.int16, sample_rate=rec.rate_for_chunk(cs))
         try:
